@@ -54,12 +54,15 @@ type sig struct {
 	kind string // enter | backoff | returned | panic
 	i    int
 	exp  bool
+	duty int // wire episodes: the duty slot and the set id the inner function was handed
+	set  int
 }
 
 type outcome struct{ err error }
 
 type call struct {
 	id, label   int
+	duty        int // wire episodes: the duty the wrapped edge function was called with (the set id is id)
 	dl, pre, pc bool
 	sig         chan sig
 	outc        chan outcome
@@ -307,6 +310,41 @@ func (ep *episode) launch(c *call) {
 	}()
 }
 
+// prepRet builds the outcome the op `ret` / `wret` hands to the running attempt and records what the monitors
+// need to know about it.
+func prepRet(run *hx.Run, ep *episode, c *call, f []string) (outcome, bool) {
+	var o outcome
+	if f[2] == "ok" {
+		c.gotOK = true
+		c.lastRetryable = false
+		run.Count("ret:ok")
+	} else {
+		raw := ""
+		if f[3] != "-" {
+			b, _ := hex.DecodeString(f[3])
+			raw = string(b)
+		}
+		err, text := mkErr(f[2], raw)
+		if err == nil {
+			return o, false
+		}
+		if err.Error() != text {
+			run.Violate("retry:driver_error_text", fmt.Sprintf("error text %q, expected %q", err.Error(), text))
+		}
+		o.err = err
+		c.lastRetryable = specRetryable(f[2], text)
+		if !c.lastRetryable {
+			c.gotPerm = true
+		}
+		if retry.VerifIsTemporaryBeaconErr(err) != (strings.Contains(text, "future") || strings.Contains(text, "current or previous") || strings.Contains(text, "retryable")) {
+			run.Violate("retry:temporary_classification", fmt.Sprintf("isTemporaryBeaconErr(%q) disagrees with the three-substring rule", text))
+		}
+		run.Count("ret:" + f[2] + map[bool]string{true: ":retryable", false: ":permanent"}[c.lastRetryable])
+		run.Case(fmt.Sprintf("ret|%s|%v|exp%v|sd%v|i%d", f[2], c.lastRetryable, c.expFlag, ep.shutdown, min(c.entered, 4)))
+	}
+	return o, true
+}
+
 // settle: Shutdown must return exactly when no call is left.
 func (ep *episode) settle(run *hx.Run, evs []string) []string {
 	if !ep.sdWait {
@@ -387,34 +425,9 @@ func (ep *episode) exec(run *hx.Run, f []string) string {
 			run.Count("op:ret-noop")
 			break
 		}
-		var o outcome
-		if f[2] == "ok" {
-			c.gotOK = true
-			c.lastRetryable = false
-			run.Count("ret:ok")
-		} else {
-			raw := ""
-			if f[3] != "-" {
-				b, _ := hex.DecodeString(f[3])
-				raw = string(b)
-			}
-			err, text := mkErr(f[2], raw)
-			if err == nil {
-				return "bad-op"
-			}
-			if err.Error() != text {
-				run.Violate("retry:driver_error_text", fmt.Sprintf("error text %q, expected %q", err.Error(), text))
-			}
-			o.err = err
-			c.lastRetryable = specRetryable(f[2], text)
-			if !c.lastRetryable {
-				c.gotPerm = true
-			}
-			if retry.VerifIsTemporaryBeaconErr(err) != (strings.Contains(text, "future") || strings.Contains(text, "current or previous") || strings.Contains(text, "retryable")) {
-				run.Violate("retry:temporary_classification", fmt.Sprintf("isTemporaryBeaconErr(%q) disagrees with the three-substring rule", text))
-			}
-			run.Count("ret:" + f[2] + map[bool]string{true: ":retryable", false: ":permanent"}[c.lastRetryable])
-			run.Case(fmt.Sprintf("ret|%s|%v|exp%v|sd%v|i%d", f[2], c.lastRetryable, c.expFlag, ep.shutdown, min(c.entered, 4)))
+		o, okOp := prepRet(run, ep, c, f)
+		if !okOp {
+			return "bad-op"
 		}
 		c.outc <- o
 		evs = append(evs, ep.react(run, c, c.wait(), "ret"))
@@ -820,16 +833,56 @@ func main() {
 	run := hx.NewRun(a.Dir)
 	defer run.Close()
 	var ep *episode
+	var wep *wepisode // non-nil: the current episode is a wire episode
 	exec := func(op string) {
 		run.Begin(op)
 		f := strings.Fields(op)
 		switch {
 		case f[0] == "cfg":
 			run.Op(op, wirePin()+" "+newPin())
-		case f[0] == "new":
+		case f[0] == "new" && len(f) == 1:
 			ep.abandon()
+			wep.abandon(run)
+			wep = nil
 			ep = newEpisode()
 			run.Op(op, "ok")
+		case f[0] == "wnew" && len(f) == 1:
+			ep.abandon()
+			wep.abandon(run)
+			ep = nil
+			wep = newWepisode()
+			run.Op(op, "ok")
+		case f[0] == "wcall" || f[0] == "wret" || f[0] == "wfire" || f[0] == "wexpire":
+			bad := wep == nil
+			switch f[0] {
+			case "wcall":
+				bad = bad || len(f) != 4
+				if !bad {
+					id, e1 := strconv.Atoi(f[1])
+					edge, e2 := strconv.Atoi(f[2])
+					duty, e3 := strconv.Atoi(f[3])
+					bad = e1 != nil || e2 != nil || e3 != nil || id < 0 || edge < 0 || edge >= len(labels) || duty < 0 || duty >= partBase
+				}
+			case "wret":
+				bad = bad || len(f) < 3 || (f[2] == "ok") != (len(f) == 3) || len(f) > 4
+				if !bad && len(f) == 4 && f[3] != "-" {
+					if _, err := hex.DecodeString(f[3]); err != nil || strings.ToLower(f[3]) != f[3] {
+						bad = true
+					}
+				}
+			default:
+				bad = bad || len(f) != 2
+			}
+			if !bad && f[0] != "wcall" {
+				if v, err := strconv.Atoi(f[1]); err != nil || v < 0 {
+					bad = true
+				}
+			}
+			if bad {
+				run.Op(op, "bad-op")
+				return
+			}
+			run.Op(op, wep.exec(run, f))
 		case f[0] == "delay" && len(f) == 2:
 			i, err := strconv.Atoi(f[1])
 			if err != nil || i < 0 {
@@ -838,6 +891,10 @@ func main() {
 			}
 			run.Op(op, doDelay(run, i))
 		default:
+			if wep != nil {
+				run.Op(op, "bad-op") // ops of plain episodes do not apply to a wire episode
+				return
+			}
 			if ep == nil {
 				ep = newEpisode()
 			}
@@ -881,11 +938,113 @@ func main() {
 			exec(op)
 		}
 		ep.abandon()
+		wep.abandon(run)
 		return
 	}
 	rng := hx.NewRng(a.Seed)
 	exec("cfg")
+	hexOf := func(m string) string {
+		if m == "" {
+			return "-"
+		}
+		return hex.EncodeToString([]byte(m))
+	}
+	retryableRet := func(id int) string {
+		switch rng.Intn(4) {
+		case 0:
+			return fmt.Sprintf("wret %d net %s", id, hexOf(msgPool[rng.Intn(len(msgPool))]))
+		case 1:
+			return fmt.Sprintf("wret %d ctxd %s", id, hexOf(msgPool[rng.Intn(len(msgPool))]))
+		case 2:
+			return fmt.Sprintf("wret %d wctxc %s", id, hexOf(msgPool[rng.Intn(len(msgPool))]))
+		}
+		return fmt.Sprintf("wret %d plain %s", id, hexOf(msgPool[2+rng.Intn(6)]))
+	}
+	wireEpisode := func() {
+		exec("wnew")
+		nextID := 1
+		lastEdge := []int{3, 4, 3, 4, 0, 1, 2}[rng.Intn(7)]
+		if rng.Chance(1, 2) {
+			// calls of one edge for different duties overlap: D1 fails temporarily and waits, D2 succeeds at
+			// once, then D1's timer fires
+			d1 := rng.Intn(50)
+			d2 := d1 + 1 + rng.Intn(5)
+			exec(fmt.Sprintf("wcall 1 %d %d", lastEdge, d1))
+			exec(retryableRet(1))
+			exec(fmt.Sprintf("wcall 2 %d %d", lastEdge, d2))
+			exec("wret 2 ok")
+			exec("wfire 1")
+			nextID = 3
+		}
+		nops := 8 + rng.Intn(30)
+		for k := 0; k < nops && run.NOps < a.N && stuck < 3; k++ {
+			var byPhase = map[string][]int{}
+			for _, id := range wep.order {
+				byPhase[wep.calls[id].phase] = append(byPhase[wep.calls[id].phase], id)
+			}
+			pick := func(ph string) int {
+				l := byPhase[ph]
+				if len(l) == 0 {
+					return -1
+				}
+				return l[rng.Intn(len(l))]
+			}
+			r := rng.Intn(100)
+			switch {
+			case r < 25 && len(wep.order) < 9 || len(wep.order) == 0:
+				if rng.Chance(1, 3) {
+					lastEdge = rng.Intn(5)
+				}
+				exec(fmt.Sprintf("wcall %d %d %d", nextID, lastEdge, rng.Intn(6)))
+				nextID++
+			case r < 60:
+				if id := pick("inflight"); id >= 0 {
+					switch k := rng.Intn(10); {
+					case k < 4:
+						exec(fmt.Sprintf("wret %d ok", id))
+					case k < 9:
+						exec(retryableRet(id))
+					default:
+						exec(fmt.Sprintf("wret %d plain %s", id, hexOf("boom")))
+					}
+				}
+			case r < 88:
+				if id := pick("backoff"); id >= 0 {
+					exec(fmt.Sprintf("wfire %d", id))
+				}
+			case r < 94:
+				if len(wep.order) > 0 {
+					exec(fmt.Sprintf("wexpire %d", wep.order[rng.Intn(len(wep.order))]))
+				}
+			default: // ops that do not fit
+				id := nextID + 2
+				if len(wep.order) > 0 && rng.Chance(2, 3) {
+					id = wep.order[rng.Intn(len(wep.order))]
+				}
+				switch rng.Intn(3) {
+				case 0:
+					exec(fmt.Sprintf("wfire %d", id))
+				case 1:
+					exec(fmt.Sprintf("wret %d ok", id))
+				default:
+					exec(fmt.Sprintf("wcall %d %d %d", id, rng.Intn(5), rng.Intn(6)))
+					if id >= nextID {
+						nextID = id + 1
+					}
+				}
+			}
+		}
+		for _, id := range append([]int(nil), wep.order...) {
+			if wep.calls[id].phase == "inflight" && run.NOps < a.N {
+				exec(fmt.Sprintf("wret %d ok", id))
+			}
+		}
+	}
 	for run.NOps < a.N && !run.Enough() && stuck < 3 {
+		if rng.Chance(1, 4) {
+			wireEpisode()
+			continue
+		}
 		exec("new")
 		nextID := 1
 		type gc struct {
@@ -1018,4 +1177,5 @@ func main() {
 		}
 	}
 	ep.abandon()
+	wep.abandon(run)
 }
